@@ -13,7 +13,8 @@
 From Wharf Require Import Base.Prelude Conc.Fanout Conc.FanoutProofs Conc.Collector Conc.CollectorProofs Conc.Pick Conc.PickProofs.
 
 (** For every upstream chunking (the reads of the source pool, however short, empty reads
-    included), every pair of consumer buffer sizes and every interleaving of the producer,
+    included; [eofdata]: the last read returns its bytes together with io.EOF instead of
+    being followed by a read that returns (0, io.EOF)), every pair of consumer buffer sizes and every interleaving of the producer,
     the two consumers and the task group ([sched]; the buffer size of a consumer read is part
     of the schedule): when the end marker is written both consumers have returned and each
     produced exactly what it produces from the whole content read sequentially — provided a
@@ -24,8 +25,8 @@ Theorem fanout_deterministic :
          (out2 : list (list N) -> O2) (spec2 : list N -> O2),
     (forall pieces, out1 pieces = spec1 (concat pieces)) ->
     (forall pieces, out2 pieces = spec2 (concat pieces)) ->
-    forall (chunks : list (list N)) (sched : list fthread),
-      let s := frun sched (init_fanout chunks) in
+    forall (chunks : list (list N)) (eofdata : bool) (sched : list fthread),
+      let s := frun sched (init_fanout_eof chunks eofdata) in
       (fmarker s = true -> out1 (fp1 s) = spec1 (concat chunks) /\ out2 (fp2 s) = spec2 (concat chunks)) /\
       (exists more, fmarker (frun more s) = true).
 Proof. exact fanout_deterministic_lemma. Qed.
@@ -34,8 +35,8 @@ Print Assumptions fanout_deterministic.
 (** the bytes themselves: each consumer that has returned received exactly the upstream
     bytes, the marker comes after both, no state is stuck *)
 Theorem fanout_bytes :
-  forall (chunks : list (list N)) (sched : list fthread),
-    let s := frun sched (init_fanout chunks) in
+  forall (chunks : list (list N)) (eofdata : bool) (sched : list fthread),
+    let s := frun sched (init_fanout_eof chunks eofdata) in
     (fdone1 s = true -> concat (fp1 s) = concat chunks) /\
     (fdone2 s = true -> concat (fp2 s) = concat chunks) /\
     (fmarker s = true -> fdone1 s = true /\ fdone2 s = true) /\
@@ -43,17 +44,17 @@ Theorem fanout_bytes :
 Proof. exact fanout_pieces_lemma. Qed.
 Print Assumptions fanout_bytes.
 
-(** two runs over the same bytes, sliced differently upstream and scheduled differently,
-    give the same two outputs *)
+(** two runs over the same bytes, sliced differently upstream, ended differently (EOF with
+    the last bytes or after them) and scheduled differently, give the same two outputs *)
 Theorem fanout_chunking_independent :
   forall (O1 O2 : Type) (out1 : list (list N) -> O1) (spec1 : list N -> O1)
          (out2 : list (list N) -> O2) (spec2 : list N -> O2),
     (forall pieces, out1 pieces = spec1 (concat pieces)) ->
     (forall pieces, out2 pieces = spec2 (concat pieces)) ->
-    forall (chunksA chunksB : list (list N)) (schedA schedB : list fthread),
+    forall (chunksA chunksB : list (list N)) (eofA eofB : bool) (schedA schedB : list fthread),
       concat chunksA = concat chunksB ->
-      let sA := frun schedA (init_fanout chunksA) in
-      let sB := frun schedB (init_fanout chunksB) in
+      let sA := frun schedA (init_fanout_eof chunksA eofA) in
+      let sB := frun schedB (init_fanout_eof chunksB eofB) in
       fmarker sA = true -> fmarker sB = true ->
       out1 (fp1 sA) = out1 (fp1 sB) /\ out2 (fp2 sA) = out2 (fp2 sB).
 Proof. exact fanout_chunking_lemma. Qed.
@@ -81,6 +82,12 @@ Example fanout_instance :
                 (init_fanout [[1;2;3]; []]%N) in
   fmarker s = true /\ fp1 s = [[1;2]; [3]; []; []]%N /\ fp2 s = [[1;2;3]; []; []]%N.
 Proof. exact fanout_example. Qed.
+
+Example fanout_instance_eofdata :
+  let s := frun [TProducer; TCons1 2; TCons1 2; TCons2 5; TProducer; TCons1 1; TCons2 1; TGroup]
+                (init_fanout_eof [[1;2;3]]%N true) in
+  fmarker s = true /\ fp1 s = [[1;2]; [3]]%N /\ fp2 s = [[1;2;3]]%N.
+Proof. exact fanout_example_eofdata. Qed.
 
 Example collector_instance :
   let ms := fun b => match b with 0 => [10; 11; 12] | 1 => [] | 2 => [20] | _ => [30; 31] end in
